@@ -73,6 +73,12 @@ func NamedConf(name string) *Conf {
 			{Path: "root.p", Parent: true, Max: r1("memory", 3)},
 			{Path: "root.p.x", Max: r1("memory", 5)},
 		}}
+	case "bad3": // passes validation, fails when the partition is updated (a placement rule nobody can build); everything else differs
+		c = &Conf{Valid: false, Queues: []QConf{
+			{Path: "root", SubmitACL: "*", Limits: []LimitConf{{Users: []string{"u0"}, Max: r1("memory", 1), MaxApps: 1}, {Groups: []string{"g1"}, Max: r1("memory", 1), MaxApps: 1}}},
+			{Path: "root.a", MaxApps: 5, Max: r1("memory", 1)},
+			{Path: "root.zz", Max: r1("memory", 9)},
+		}, Rules: []RuleConf{{Name: "nosuchrule"}}}
 	case "pre":
 		c = &Conf{Valid: true, Preemption: true, Queues: []QConf{
 			{Path: "root.p", Parent: true, Max: r1("memory", 12)},
